@@ -36,7 +36,7 @@ class C20(Check):
                        "w3:PROGRAM_DOES_NOT_EXIST", "w3:break-with-two-in-flight", "w3:T2-reader-death",
                        "w3:cancel-before-request-queued", "w3:cancel-with-request-out", "w3:cancel-rpc-sent",
                        "w3:reply-for-stale-request", "w3:submit-after-stop", "w3:stop-with-unsent-request", "w3:connect-stalled", "w3:result-after-retry",
-                       "w2:out-of-order-completion", "w2:batched-job", "w2:limiter-saturated", "w2:repeated-call-on-one-sampler", "w2:call-after-failed-call",
+                       "w2:out-of-order-completion", "w2:batched-job", "w2:limiter-saturated", "w2:repeated-call-on-one-sampler", "w2:call-after-failed-call", "w2:equal-observables", "w2:equal-sweep-points",
                        "l2:result", "l2:polling-fallback", "l2:recreate-path", "l2:unary-fault-fired",
                        "l2:error:timeout", "l2:error:nonretryable-break", "l2:minutes-of-virtual-time"]
 
